@@ -18,6 +18,7 @@ import Upnp.Lemmas.C12Sub
 import Upnp.Lemmas.C12Renew
 import Upnp.Lemmas.C12Mon
 import Upnp.Lemmas.C12Rep
+import Upnp.Lemmas.C12Yield
 import Upnp.Spec.C12
 namespace Upnp.C12
 open Upnp PyDict
@@ -100,6 +101,45 @@ theorem loop_yields (cfg : Cfg) (hs : cfg.skipStale = false) (st : St) (hn : (ke
 
 theorem loop_yields_gen (st : St) (h : Core st) : (runHead genCfg (headFuel st) st).halted = st.halted :=
   loop_yields genCfg gen_shapes.1 st h.subsNodup
+
+/-- the judge's "always yields" clause, whole-trace form, as far as it is proved.
+
+    Full statement: for every history the trace contains no `spin` (`yieldBad … = []`).
+
+    Proved (`_partial`): a run that has not halted has emitted no `spin` — and by `loop_yields` the renewal
+    loop's own fuel (`|subscriptions| + 2` iterations without an await) is never what halts a run: the only
+    remaining source is the await budget of a `wait` (`waitFuel`: one renewal round per 125 ms of virtual
+    time), i.e. a publisher behaviour under which virtual time stops advancing.
+    Missing: Zeno-freedom of `waitLoop` — that within the property's domain (granted timeouts > tolerance)
+    consecutive rounds are at least `timeout - tolerance` apart, so the budget is never exhausted. -/
+theorem yield_trace_partial (n : Nat) (script : List Entry) (dflt : Entry) (ops : List Op)
+    (hh : (run genCfg n script dflt ops).halted = false) :
+    yieldBad (run genCfg n script dflt ops).trace = [] := by
+  have hinv : NoSpinInv (run genCfg n script dflt ops) := by
+    clear hh
+    unfold run
+    suffices H : ∀ st, Core st → TaskOk st → NoSpinInv st → NoSpinInv (ops.foldl (step genCfg n) st) from
+      H _ (Core.init script dflt) (by simp [TaskOk, init]) (by intro _ e he; simp [init] at he)
+    induction ops with
+    | nil => intro st _ _ hi; exact hi
+    | cons op r ih =>
+      intro st h ht hi
+      have hc := step_core genCfg gen_shapes.2.1 n st op h ht
+      refine ih _ hc.1 hc.2 ?_
+      cases op with
+      | sub auto => exact noSpin_doSub genCfg n auto st h hi
+      | wait d => exact noSpin_doWait genCfg gen_shapes.1 gen_shapes.2.1 d st hi
+      | unsub => exact noSpin_doUnsub genCfg gen_shapes.1 gen_shapes.2.1 st h ht hi
+  have hno := hinv hh
+  unfold yieldBad
+  split
+  · rename_i hany
+    rw [List.any_eq_true] at hany
+    obtain ⟨e, he, hf⟩ := hany
+    have he' : e ∈ (run genCfg n script dflt ops).rtrace := by simpa [St.trace] using he
+    have := hno e he'
+    cases e <;> simp_all [Ev.isSpin]
+  · rfl
 
 /-- non-vacuity, and the reason for the hypothesis: with the stale-skip of the unrepaired code a single
     subscription whose deadline is more than the tolerance in the past makes the loop spin (F12a) -/
